@@ -38,6 +38,13 @@ def gen_cases(params, rng, rows_per_w, nrand, widths=(16, 32, 64), bfly=True):
                 add("mul:extremes", "mulmod", pn, x, y); add("mulshoup:extremes", "mulmod_shoup", x, y)
                 for z in (0, p - 1):
                     add("muladd:extremes", "muladd", pn, z, x, y); add("muladdshoup:extremes", "muladd_shoup", z, x, y)
+            # --- products that fit in ONE limb although they are far above p (a shortcut for 'small' products is wrong there): k*p +- small
+            sq = 1 << (w // 2)
+            for (x, y) in ((2, p - 1), (3, p - 1), (3, p // 2 + 1), (4, p // 2 + 7), (sq - 1, sq - 1), (sq, sq - 1), (sq + 1, sq - 3), (sq * 3 // 2, sq),
+                           (7, (3 * p) // 7 + 1), (5, (B - 1) // 5 % p)):
+                if 0 <= x < p and 0 <= y < p:
+                    add("mul:product fits in one limb but exceeds 2p", "mulmod", pn, x, y); add("mul:product fits in one limb but exceeds 2p", "mulmod", pn, y, x)
+                    add("muladd:product fits in one limb but exceeds 2p", "muladd", pn, p - 1, x, y)
             # --- compute_shoup on arbitrary words (also >= p)
             for y in [0, 1, p - 1, p, p + 1, 2 * p - 1, 2 * p, 3 * p, 4 * p - 1, B - 1, B - 2, B // 2, B // 2 - 1] + [k * p for k in range(4, 9) if k * p < B] + [k * p - 1 for k in range(4, 9) if k * p - 1 < B]:
                 if 0 <= y < B: add("cshoup:boundary words incl >= p", "compute_shoup", y)
